@@ -20,8 +20,16 @@
 (* is two actions, the second of which has priority over everything else   *)
 (* on that connection (Busy).                                              *)
 (*                                                                         *)
-(* The three CONSTANT switches are the places where the code as found      *)
-(* deviates from the property (DESIGN.md 2.2 rule 4); TRUE = repaired.     *)
+(* A state report (Connection.set_state -> Network.on_state_changed ->     *)
+(* EventBus.emit) awaits the application's coroutine listeners: every      *)
+(* report is an await point of the reporting task.  The state assignment,  *)
+(* the network's own bookkeeping and the notification are one step; the    *)
+(* return from the listeners is a separate one (ReportDone / DiscGo /      *)
+(* DiscDone).  With SlowListener = FALSE that return follows immediately.  *)
+(*                                                                         *)
+(* The CONSTANT switches GuardAcceptFinish .. ClosingReportGuarded are the *)
+(* places where the code as found deviates from the property (DESIGN.md    *)
+(* 2.2 rule 4); TRUE = repaired.                                           *)
 (***************************************************************************)
 EXTENDS Naturals, Sequences, FiniteSets, TLC
 
@@ -29,12 +37,17 @@ CONSTANTS
   Conns,               \* connection ids
   Kinds,               \* kinds Init may pick: subset of {"server", "out", "in", "none"}
   Obfs,                \* subset of BOOLEAN: obfuscated or plain (peer connections)
+  SlowListener,        \* TRUE: listeners of a state report may suspend (other tasks run inside the report)
   GuardAcceptFinish,   \* TRUE: accept() reports CONNECTED only for a connection that is still UNINIT
-                       \* FALSE (connection.py:186-187 as found): unconditionally
+                       \* FALSE (pinned connection.py:186-187): unconditionally
   CloseOnCancel,       \* TRUE: CancelledError at open_connection closes the connection
-                       \* FALSE (connection.py:234-241 as found): only Exception/TimeoutError do
+                       \* FALSE (pinned connection.py:234-241): only Exception/TimeoutError do
   AbortConnectOnClose, \* TRUE: a connect that completes after disconnect() gives the socket up
-                       \* FALSE (connection.py:243-245 as found): reports CONNECTED on the closed connection
+                       \* FALSE (pinned connection.py:243-245): reports CONNECTED on the closed connection
+  ConnectingReportGuarded, \* TRUE: cancellation during the CONNECTING report is handled like cancellation at
+                       \* open_connection;  FALSE (connect(): the report is awaited before the try): nothing happens
+  ClosingReportGuarded,\* TRUE: disconnect() reaches CLOSED also when it is cancelled during the CLOSING report
+                       \* FALSE (disconnect(): the report is awaited before the try/finally): stays CLOSING for ever
   MaxLives,            \* connects of the server connection per behaviour
   MaxCalls,            \* API disconnect calls per connection
   MaxMsgs              \* counted deliveries / sends per connection (saturating)
@@ -49,20 +62,25 @@ Rank(s) == CASE s = "UNINIT" -> 0 [] s = "CONNECTING" -> 1 [] s = "CONNECTED" ->
 Blank(k, o) ==
   [kind  |-> k,        \* "server" | "out" | "in" | "none" (unused id)
    obf   |-> o,
+   hnd   |-> FALSE,    \* out: created by _make_direct_connection, whose `except BaseException` disconnects (network.py:874-878)
    cs    |-> "UNINIT", \* Connection.state (the code's variable)
    rep   |-> <<>>,     \* states reported through ConnectionStateChangedEvent, in order
    inReg |-> FALSE,    \* member of Network.peer_connections
    att   |-> "none",   \* the attempt task: none | running | cancelled | finished   ("unknown": observation only)
-   apc   |-> "-",      \* where the attempt is: - | begin | opening | sendinit | drain | finalize | initread | indisc | finish
+   cnc   |-> FALSE,    \* the attempt task has been cancelled (it may still be running its clean-up)
+   apc   |-> "-",      \* where the attempt is: - | begin | repCONNECTING | opening | repCONNECTED | sendinit | drain |
+                       \* finalize | initread | indisc | finish | repACCEPT            ("repHELD": observation only)
    rd    |-> FALSE,    \* reader task alive
    wr    |-> "none",   \* transport: none | open | closing | closed                  ("unknown": observation only)
-   dpc   |-> "-",      \* disconnect() in flight: - | now (no writer: CLOSED follows without suspension) | wait (wait_closed)
-   dby   |-> "-",      \* who runs it: api | reader | attempt | sender | -
+   dpc   |-> "-",      \* disconnect() in flight: - | repCLOSING | now (no writer: CLOSED follows without suspension) |
+                       \* wait (wait_closed) | repCLOSED
+   dby   |-> "-",      \* who runs it: api | reader | attempt | sender | canc (clean-up of the cancelled attempt) | -
    drsn  |-> "-",      \* its CloseReason
    sblk  |-> FALSE,    \* a send_message is blocked in drain()
    lives |-> 0, ncall |-> 0, dlv |-> 0, snd |-> 0,
    dlvAC |-> FALSE,    \* history: a message of this connection was delivered after CLOSED
-   sndAC |-> FALSE]    \* history: bytes of this connection left after CLOSED
+   sndAC |-> FALSE,    \* history: bytes of this connection left after CLOSED
+   sokAC |-> FALSE]    \* history: a send that had handed its bytes to the transport returned success after CLOSED
 
 Init ==
   /\ conn \in [Conns -> {Blank(k, o) : k \in Kinds, o \in Obfs}]
@@ -76,127 +94,162 @@ AfterClosed(r) == \E i \in 1..Len(r.rep) :
                     r.rep[i] = "CLOSED" /\ \A j \in (i+1)..Len(r.rep) : r.rep[j] # "CONNECTING"
 Sat(n) == IF n < MaxMsgs THEN n + 1 ELSE n
 
-\* Connection.set_state (connection.py:105-108) + Network.on_state_changed
+\* Connection.set_state (connection.py:105-108) + Network.on_state_changed: assignment, bookkeeping, notification
 Rep(r, s) == [r EXCEPT !.cs = s, !.rep = Append(@, s)]
 Upd(c, r) == conn' = [conn EXCEPT ![c] = r]
 
-\* the attempt or a writer-less disconnect continues without suspending: nothing else of this connection interleaves
-Busy(r) == r.apc \in {"begin", "sendinit", "finalize", "finish"} \/ r.dpc = "now"
+\* a task of this connection is suspended inside a state report (in a listener)
+InReport(r) == r.apc \in {"repCONNECTING", "repCONNECTED", "repACCEPT", "repHELD"} \/ r.dpc \in {"repCLOSING", "repCLOSED"}
 
-\* connection.py:247-269  disconnect(), first stretch: idempotency guard, CLOSING, cancel queued sends, close the
-\* writer and suspend in wait_closed - or, without a writer, go on to CLOSED without suspending.
+\* the attempt or a writer-less disconnect continues without suspending: nothing else of this connection interleaves
+Busy(r) == \/ r.apc \in {"begin", "sendinit", "finalize", "finish"} \/ r.dpc = "now"
+           \/ ~SlowListener /\ InReport(r)
+
+\* the attempt can be cancelled through the public API: the caller of create_peer_connection / connect_server
+ApiCancellable(r) == r.att = "running" /\ ~r.cnc /\ (r.kind = "server" \/ (r.kind = "out" /\ r.hnd))
+
+\* connection.py disconnect(), first stretch: idempotency guard, state CLOSING and its report
 DiscBegin(r, who, reason) ==
   IF Closing(r) THEN r
   ELSE IF r.dpc # "-" THEN Rep(r, "CLOSING")      \* only reachable after a revival (switches FALSE)
-  ELSE [Rep(r, "CLOSING") EXCEPT !.dpc = IF r.wr = "open" THEN "wait" ELSE "now",
-                                 !.wr = IF r.wr = "open" THEN "closing" ELSE r.wr,
-                                 !.dby = who, !.drsn = reason]
+  ELSE [Rep(r, "CLOSING") EXCEPT !.dpc = "repCLOSING", !.dby = who, !.drsn = reason]
 
-\* connection.py:275-281 + network.py:1071-1076  CLOSED, registry remove, reader/writer dropped; then the caller goes on
-DiscEnd(r) ==
-  LET r1 == [Rep(r, "CLOSED") EXCEPT !.inReg = FALSE, !.wr = IF r.wr = "none" THEN "none" ELSE "closed",
-                                     !.rd = FALSE, !.dpc = "-", !.dby = "-"]
-  IN CASE r.dby = "attempt" /\ r.kind = "in" -> [r1 EXCEPT !.apc = "finish"]      \* on_peer_accepted returns
-       [] r.dby = "attempt" /\ r.kind # "in" -> [r1 EXCEPT !.apc = "-", !.att = "finished"]  \* connect()/send raises
-       [] OTHER -> r1
+\* the task whose (possibly no-op) disconnect was its last act ends
+EndAttempt(r, how) == [r EXCEPT !.apc = "-", !.att = how]
+
+\* the cancelled attempt runs disconnect(REQUESTED) as its clean-up and ends when that is done
+CleanUp(r) ==
+  IF Closing(r) THEN EndAttempt([r EXCEPT !.cnc = TRUE], "cancelled")
+  ELSE [DiscBegin(r, "canc", "REQUESTED") EXCEPT !.cnc = TRUE, !.apc = "indisc"]
 
 ----------------------------------------------------------------------------
 \* Outgoing connections and the server connection
 
-\* network.py:826-832 / 919-925  PeerConnection(...); peer_connections.append(connection)
-OutCreate(c) ==
+\* network.py _make_direct_connection ("api") / _handle_connect_to_peer ("ctp"):  PeerConnection(...); registry add
+OutCreate(c, via) ==
   LET r == conn[c] IN
+  /\ via \in {"api", "ctp"}
   /\ r.kind = "out" /\ r.att = "none"
-  /\ Upd(c, [r EXCEPT !.inReg = TRUE, !.att = "running", !.apc = "begin"])
+  /\ Upd(c, [r EXCEPT !.inReg = TRUE, !.att = "running", !.apc = "begin", !.hnd = (via = "api")])
 
-\* network.py:296-297, 366-394  connect_server() / the watchdog reconnect (only from UNINIT or CLOSED)
+\* connect_server() / the watchdog reconnect (only from UNINIT or CLOSED)
 ServerConnect(c) ==
   LET r == conn[c] IN
-  /\ r.kind = "server" /\ r.att # "running" /\ r.cs \in {"UNINIT", "CLOSED"} /\ ~Busy(r)
+  /\ r.kind = "server" /\ r.att # "running" /\ r.cs \in {"UNINIT", "CLOSED"} /\ ~Busy(r) /\ r.dpc = "-"
   /\ r.lives < MaxLives
-  /\ Upd(c, [r EXCEPT !.att = "running", !.apc = "begin", !.lives = @ + 1])
+  /\ Upd(c, [r EXCEPT !.att = "running", !.cnc = FALSE, !.apc = "begin", !.lives = @ + 1])
 
-\* connection.py:231-237  CONNECTING, then suspend in open_connection
+\* connect(): state CONNECTING and its report
 ConnectBegin(c) ==
   LET r == conn[c] IN
   /\ r.apc = "begin"
-  /\ Upd(c, [Rep(r, "CONNECTING") EXCEPT !.apc = "opening"])
+  /\ Upd(c, [Rep(r, "CONNECTING") EXCEPT !.apc = "repCONNECTING"])
 
-\* connection.py:243-245  open_connection returned
+\* the listeners of a CONNECTING / CONNECTED report returned: the attempt goes on
+ReportDone(c) ==
+  LET r == conn[c] IN
+  /\ r.apc \in {"repCONNECTING", "repCONNECTED", "repACCEPT"}
+  /\ CASE r.apc = "repCONNECTING" -> Upd(c, [r EXCEPT !.apc = "opening"])          \* suspends in open_connection
+       [] r.apc = "repCONNECTED" /\ r.kind = "server" ->                            \* connect_server returns;
+            Upd(c, [EndAttempt(r, "finished") EXCEPT !.rd = ~Closing(r)])           \* client.py start_reader_task()
+       [] r.apc = "repCONNECTED" /\ r.kind # "server" -> Upd(c, [r EXCEPT !.apc = "sendinit"])
+       [] OTHER -> Upd(c, EndAttempt(r, "finished"))                                \* accept() returns
+
+\* connect(): open_connection returned
 ConnectOk(c) ==
   LET r == conn[c] IN
   /\ r.apc = "opening" /\ ~Busy(r)
   /\ IF Closing(r) /\ AbortConnectOnClose
-       THEN Upd(c, [r EXCEPT !.wr = "closed", !.apc = "-", !.att = "finished"])    \* gives up: ConnectionFailedError
-       ELSE Upd(c, [Rep(r, "CONNECTED") EXCEPT !.wr = "open",
-                       !.apc = IF r.kind = "server" THEN "-" ELSE "sendinit",
-                       !.att = IF r.kind = "server" THEN "finished" ELSE "running",
-                       !.rd = (r.kind = "server")])      \* client.py:212 start_reader_task()
+       THEN Upd(c, EndAttempt([r EXCEPT !.wr = "closed"], "finished"))     \* gives up: ConnectionFailedError
+       ELSE Upd(c, [Rep(r, "CONNECTED") EXCEPT !.wr = "open", !.apc = "repCONNECTED"])
 
-\* connection.py:239-241  refused / PEER_CONNECT_TIMEOUT: disconnect(CONNECT_FAILED), raise ConnectionFailedError
+\* connect(): refused / PEER_CONNECT_TIMEOUT: disconnect(CONNECT_FAILED), raise ConnectionFailedError
 ConnectFail(c) ==
   LET r == conn[c] IN
   /\ r.apc = "opening" /\ ~Busy(r)
-  /\ IF Closing(r) THEN Upd(c, [r EXCEPT !.apc = "-", !.att = "finished"])
+  /\ IF Closing(r) THEN Upd(c, EndAttempt(r, "finished"))
      ELSE Upd(c, [DiscBegin(r, "attempt", "CONNECT_FAILED") EXCEPT !.apc = "indisc"])
 
 \* CancelledError delivered at `await asyncio.open_connection` (race loser, aborted request, Network.disconnect)
 ConnectCancelledOpen(c) ==
   LET r == conn[c] IN
-  /\ r.apc = "opening" /\ ~Busy(r)
-  /\ IF CloseOnCancel /\ ~Closing(r)
-       THEN Upd(c, [DiscBegin(r, "-", "REQUESTED") EXCEPT !.apc = "-", !.att = "cancelled"])
-       ELSE Upd(c, [r EXCEPT !.apc = "-", !.att = "cancelled"])
+  /\ r.apc = "opening" /\ ~Busy(r) /\ ~r.cnc
+  /\ IF CloseOnCancel \/ r.hnd THEN Upd(c, CleanUp(r))
+     ELSE Upd(c, EndAttempt([r EXCEPT !.cnc = TRUE], "cancelled"))
 
-\* network.py:834-841 / 929-932 -> connection.py:471-503, 450-469  send_message(PeerInit | PeerPierceFirewall)
+\* CancelledError delivered while a listener of the CONNECTING / CONNECTED report of connect() is suspended
+ConnectCancelledReport(c) ==
+  LET r == conn[c] IN
+  /\ r.apc \in {"repCONNECTING", "repCONNECTED"} /\ ~Busy(r) /\ ApiCancellable(r)
+  /\ IF r.hnd \/ (r.apc = "repCONNECTING" /\ ConnectingReportGuarded) THEN Upd(c, CleanUp(r))
+     ELSE Upd(c, EndAttempt([r EXCEPT !.cnc = TRUE], "cancelled"))     \* stays CONNECTING / CONNECTED as it is
+
+\* CancelledError delivered while the attempt itself is inside disconnect() (after a failed connect / write)
+ConnectCancelledInDisconnect(c) ==
+  LET r == conn[c]
+      r0 == EndAttempt([r EXCEPT !.cnc = TRUE], "cancelled")
+      closed == [Rep(r0, "CLOSED") EXCEPT !.inReg = FALSE, !.wr = IF r.wr = "none" THEN "none" ELSE "closed",
+                                          !.dpc = "repCLOSED", !.dby = "canc", !.att = "running", !.apc = "indisc"] IN
+  /\ r.apc = "indisc" /\ r.dby = "attempt" /\ r.dpc \in {"repCLOSING", "wait", "repCLOSED"} /\ ApiCancellable(r)
+  /\ CASE r.dpc = "repCLOSING" /\ ~ClosingReportGuarded ->                 \* leaves disconnect(): CLOSING for ever
+            Upd(c, [r0 EXCEPT !.dpc = "-", !.dby = "-"])
+       [] r.dpc \in {"repCLOSING", "wait"} -> Upd(c, closed)                \* the finally clause: CLOSED and its report
+       [] OTHER -> Upd(c, [r0 EXCEPT !.dpc = "-", !.dby = "-", !.rd = FALSE])   \* in the CLOSED report: nothing left to do
+
+\* send_message(PeerInit | PeerPierceFirewall): dropped when the connection is closing meanwhile
 InitWrite(c, how) ==
   LET r == conn[c] IN
   /\ r.apc = "sendinit"
   /\ how \in {"ok", "blocked", "fail"}
-  /\ IF how = "fail"
+  /\ IF Closing(r) THEN how = "ok" /\ Upd(c, [r EXCEPT !.apc = "finalize"])
+     ELSE IF how = "fail"
        THEN Upd(c, [DiscBegin(r, "attempt", "WRITE_ERROR") EXCEPT !.apc = "indisc"])
        ELSE Upd(c, [r EXCEPT !.snd = Sat(@), !.sndAC = @ \/ AfterClosed(r),
                              !.apc = IF how = "ok" THEN "finalize" ELSE "drain"])
 
+\* the blocked drain() of the init message ends: normally while the transport is open, with an error once it is gone
 DrainResume(c) ==
   LET r == conn[c] IN
   /\ r.apc = "drain" /\ ~Busy(r)
-  /\ Upd(c, [r EXCEPT !.apc = "finalize"])
+  /\ IF r.wr = "open" THEN Upd(c, [r EXCEPT !.apc = "finalize"])
+     ELSE Upd(c, EndAttempt(r, "finished"))                     \* ConnectionWriteError (disconnect is a no-op)
 
-\* connection.py:457-465  drain() did not return within 10 s
+\* drain() did not return within 10 s
 DrainTimeout(c) ==
   LET r == conn[c] IN
   /\ r.apc = "drain" /\ ~Busy(r)
-  /\ IF Closing(r) THEN Upd(c, [r EXCEPT !.apc = "-", !.att = "finished"])
+  /\ IF Closing(r) THEN Upd(c, EndAttempt(r, "finished"))
      ELSE Upd(c, [DiscBegin(r, "attempt", "TIMEOUT") EXCEPT !.apc = "indisc"])
 
-\* CancelledError delivered at the init-message drain: passes `except Exception`, the connection stays as it is
+\* CancelledError delivered at the init-message drain: passes `except Exception` in _send
 ConnectCancelledDrain(c) ==
   LET r == conn[c] IN
-  /\ r.apc = "drain" /\ ~Busy(r)
-  /\ Upd(c, [r EXCEPT !.apc = "-", !.att = "cancelled"])
+  /\ r.apc = "drain" /\ ~Busy(r) /\ ~r.cnc
+  /\ IF r.hnd THEN Upd(c, CleanUp(r))
+     ELSE Upd(c, EndAttempt([r EXCEPT !.cnc = TRUE], "cancelled"))     \* the connection stays as it is
 
-\* network.py:843-848 / 942-945  _finalize_peer_connection: start the reader (its loop ends at once when closing)
+\* _finalize_peer_connection: start the reader (its loop ends at once when closing)
 InitSent(c) ==
   LET r == conn[c] IN
   /\ r.apc = "finalize"
-  /\ Upd(c, [r EXCEPT !.rd = ~Closing(r), !.apc = "-", !.att = "finished"])
+  /\ Upd(c, [EndAttempt(r, "finished") EXCEPT !.rd = ~Closing(r)])
 
 ----------------------------------------------------------------------------
 \* Incoming connections
 
-\* connection.py:173-186 + network.py:1090  accept(): PeerConnection(incoming), registry add, wait for the init message
+\* accept(): PeerConnection(incoming), registry add, wait for the init message
 InAccept(c) ==
   LET r == conn[c] IN
   /\ r.kind = "in" /\ r.att = "none"
   /\ Upd(c, [r EXCEPT !.wr = "open", !.inReg = TRUE, !.att = "running", !.apc = "initread"])
 
-\* network.py:1107-1133  PeerInit, or PeerPierceFirewall with a ticket somebody waits for
+\* PeerInit, or PeerPierceFirewall with a ticket somebody waits for (also while a disconnect is still in its
+\* CLOSING report: the transport is open, the message is read, the reader's loop ends at once)
 InitOk(c, how) ==
   LET r == conn[c] IN
   /\ how \in {"peerinit", "pierce"}
-  /\ r.apc = "initread" /\ r.cs = "UNINIT" /\ ~Busy(r)
-  /\ Upd(c, [r EXCEPT !.rd = TRUE, !.apc = "finish"])
+  /\ r.apc = "initread" /\ ~Busy(r) /\ (r.cs = "UNINIT" \/ (Closing(r) /\ r.wr = "open"))
+  /\ Upd(c, [r EXCEPT !.rd = ~Closing(r), !.apc = "finish"])
 
 \* The wait for the init message ends badly.  path names the code path, InitReason(path) the CloseReason it uses.
 InitPaths == {"eof", "readerror", "timeout", "undecodable", "unexpected", "unknownticket"}
@@ -204,61 +257,71 @@ InitReason(path) == CASE path = "eof" -> "EOF" [] path \in {"readerror", "undeco
                       [] path = "timeout" -> "TIMEOUT" [] OTHER -> "REQUESTED"
 InitFails(c, path) ==
   LET r == conn[c] IN
-  /\ r.apc = "initread" /\ ~Closing(r) /\ ~Busy(r)
-  /\ Upd(c, [DiscBegin(r, "attempt", InitReason(path)) EXCEPT !.apc = "indisc"])
+  /\ r.apc = "initread" /\ ~Busy(r)
+  /\ IF Closing(r) THEN Upd(c, [r EXCEPT !.apc = "finish"])          \* the disconnect is a no-op
+     ELSE Upd(c, [DiscBegin(r, "attempt", InitReason(path)) EXCEPT !.apc = "indisc"])
 
-InitEof(c) == InitFails(c, "eof")                        \* connection.py:344-352, network.py:1094-1097
-InitReadError(c) == InitFails(c, "readerror")            \* connection.py:346-349 / 358-360 (reset, partial frame)
-InitTimeout(c) == InitFails(c, "timeout")                \* connection.py:354-356 (silence for read_timeout)
-InitUndecodable(c) == InitFails(c, "undecodable")        \* network.py:1101-1105
-InitUnexpected(c) == InitFails(c, "unexpected")          \* network.py:1135-1140
-PierceUnknownTicket(c) == InitFails(c, "unknownticket")  \* network.py:1119-1124
+InitEof(c) == InitFails(c, "eof")
+InitReadError(c) == InitFails(c, "readerror")            \* reset, partial frame
+InitTimeout(c) == InitFails(c, "timeout")                \* silence for read_timeout
+InitUndecodable(c) == InitFails(c, "undecodable")
+InitUnexpected(c) == InitFails(c, "unexpected")
+PierceUnknownTicket(c) == InitFails(c, "unknownticket")
 
-\* connection.py:187  after on_peer_accepted returned
+\* accept(), after on_peer_accepted returned
 AcceptFinish(c) ==
-  LET r == conn[c]
-      r0 == [r EXCEPT !.apc = "-", !.att = "finished"] IN
+  LET r == conn[c] IN
   /\ r.apc = "finish"
-  /\ IF GuardAcceptFinish /\ r.cs # "UNINIT" THEN Upd(c, r0) ELSE Upd(c, Rep(r0, "CONNECTED"))
+  /\ IF GuardAcceptFinish /\ r.cs # "UNINIT" THEN Upd(c, EndAttempt(r, "finished"))
+     ELSE Upd(c, [Rep(r, "CONNECTED") EXCEPT !.apc = "repACCEPT"])
 
 ----------------------------------------------------------------------------
 \* Established connections, disconnect
 
-\* connection.py:295-323 + network.py:1142-1160  the reader hands a message to on_message_received
+\* the reader hands a message to on_message_received
 Deliver(c) ==
   LET r == conn[c] IN
   /\ r.rd /\ r.cs = "CONNECTED" /\ ~Busy(r)
   /\ Upd(c, [r EXCEPT !.dlv = Sat(@), !.dlvAC = @ \/ AfterClosed(r)])
 
-\* connection.py:471-504  send_message on an open connection (dropped silently when closing)
+\* send_message on an open connection (dropped silently when closing): written, drained, returns
 Send(c) ==
   LET r == conn[c] IN
   /\ r.cs = "CONNECTED" /\ r.wr = "open" /\ ~Busy(r)
-  /\ Upd(c, [r EXCEPT !.snd = Sat(@), !.sndAC = @ \/ AfterClosed(r)])
+  /\ Upd(c, [r EXCEPT !.snd = Sat(@), !.sndAC = @ \/ AfterClosed(r), !.sokAC = @ \/ AfterClosed(r)])
 
+\* written, then blocked in drain() (back-pressure)
 SendBlocked(c) ==
   LET r == conn[c] IN
   /\ r.cs = "CONNECTED" /\ r.wr = "open" /\ ~r.sblk /\ ~Busy(r)
   /\ Upd(c, [r EXCEPT !.snd = Sat(@), !.sndAC = @ \/ AfterClosed(r), !.sblk = TRUE])
 
+\* the transport drained: send_message returns (success) - only an open transport drains
 SendResume(c) ==
   LET r == conn[c] IN
-  /\ r.sblk /\ ~Busy(r)
-  /\ Upd(c, [r EXCEPT !.sblk = FALSE])
+  /\ r.sblk /\ r.wr = "open" /\ ~Busy(r)
+  /\ Upd(c, [r EXCEPT !.sblk = FALSE, !.sokAC = @ \/ AfterClosed(r)])
 
-\* connection.py:463-465
+\* the blocked drain() ends with an error (connection lost): _send disconnects (a no-op when the connection is
+\* closing already) and raises ConnectionWriteError
+SendWakeError(c) ==
+  LET r == conn[c] IN
+  /\ r.sblk /\ ~Busy(r)
+  /\ Upd(c, [DiscBegin(r, "sender", "WRITE_ERROR") EXCEPT !.sblk = FALSE])
+
+\* drain() did not return within 10 s
 WriteTimeout(c) ==
   LET r == conn[c] IN
   /\ r.sblk /\ ~Busy(r)
   /\ Upd(c, [DiscBegin(r, "sender", "TIMEOUT") EXCEPT !.sblk = FALSE])
 
-\* connection.py:467-469
+\* write() raises
 WriteError(c) ==
   LET r == conn[c] IN
   /\ r.cs = "CONNECTED" /\ r.wr = "open" /\ ~r.sblk /\ ~Busy(r)
   /\ Upd(c, DiscBegin(r, "sender", "WRITE_ERROR"))
 
-\* connection.py:325-367  the reader's read ends; when the connection is closing already the reader just ends
+\* the reader's read ends; when the connection is closing already the reader just ends
 ReadPaths == {"eof", "readerror", "timeout"}
 ReadReason(path) == CASE path = "eof" -> "EOF" [] path = "readerror" -> "READ_ERROR" [] OTHER -> "TIMEOUT"
 ReadEnds(c, path) ==
@@ -271,27 +334,49 @@ ReadError(c) == ReadEnds(c, "readerror")
 ReadTimeout(c) == ReadEnds(c, "timeout")
 
 \* An API caller: connection.disconnect(REQUESTED), Network.disconnect(), Network.disconnect_server().  A caller that
-\* finds the connection CLOSING or CLOSED returns at once (concurrent callers).  Closing the writer of a connection
-\* that waits for its init message ends that read with EOF: on_peer_accepted returns.
+\* finds the connection CLOSING or CLOSED returns at once (concurrent callers).
 Disconnect(c) ==
-  LET r == conn[c]
-      r1 == [DiscBegin(r, "api", "REQUESTED") EXCEPT !.ncall = @ + 1] IN
+  LET r == conn[c] IN
   /\ r.att # "none" /\ ~Busy(r) /\ r.ncall < MaxCalls
-  /\ Upd(c, IF ~Closing(r) /\ r.apc = "initread" THEN [r1 EXCEPT !.apc = "finish"] ELSE r1)
+  /\ Upd(c, [DiscBegin(r, "api", "REQUESTED") EXCEPT !.ncall = @ + 1])
 
-\* wait_closed() returned or DISCONNECT_TIMEOUT passed, or (dpc = "now") there was nothing to wait for
+\* disconnect(), after the CLOSING report: cancel queued sends, close the writer and suspend in wait_closed - or,
+\* without a writer, go on to CLOSED without suspending.  Closing the writer of a connection that waits for its init
+\* message ends that read with EOF: on_peer_accepted returns.
+DiscGo(c) ==
+  LET r == conn[c] IN
+  /\ r.dpc = "repCLOSING"
+  /\ Upd(c, [r EXCEPT !.dpc = IF r.wr = "open" THEN "wait" ELSE "now",
+                      !.wr = IF r.wr = "open" THEN "closing" ELSE r.wr,
+                      !.apc = IF r.apc = "initread" THEN "finish" ELSE r.apc])
+
+\* wait_closed() returned or DISCONNECT_TIMEOUT passed, or (dpc = "now") there was nothing to wait for:
+\* state CLOSED, registry remove, report
 DisconnectEnd(c) ==
   LET r == conn[c] IN
-  /\ r.dpc # "-"
-  /\ Upd(c, DiscEnd(r))
+  /\ r.dpc \in {"now", "wait"}
+  /\ Upd(c, [Rep(r, "CLOSED") EXCEPT !.inReg = FALSE, !.wr = IF r.wr = "none" THEN "none" ELSE "closed",
+                                     !.dpc = "repCLOSED"])
+
+\* disconnect(), after the CLOSED report: reader/writer dropped; then the caller goes on
+DiscDone(c) ==
+  LET r == conn[c]
+      r1 == [r EXCEPT !.rd = FALSE, !.dpc = "-", !.dby = "-"] IN
+  /\ r.dpc = "repCLOSED"
+  /\ CASE r.dby = "attempt" /\ r.kind = "in" -> Upd(c, [r1 EXCEPT !.apc = "finish"])   \* on_peer_accepted returns
+       [] r.dby = "attempt" /\ r.kind # "in" -> Upd(c, EndAttempt(r1, "finished"))     \* connect() / send raises
+       [] r.dby = "canc" -> Upd(c, EndAttempt(r1, "cancelled"))                        \* CancelledError re-raised
+       [] OTHER -> Upd(c, r1)
 
 Step(c) ==
-  \/ OutCreate(c) \/ ServerConnect(c) \/ ConnectBegin(c) \/ ConnectOk(c) \/ ConnectFail(c)
-  \/ ConnectCancelledOpen(c) \/ (\E how \in {"ok", "blocked", "fail"} : InitWrite(c, how))
+  \/ (\E via \in {"api", "ctp"} : OutCreate(c, via)) \/ ServerConnect(c) \/ ConnectBegin(c) \/ ReportDone(c)
+  \/ ConnectOk(c) \/ ConnectFail(c) \/ ConnectCancelledOpen(c) \/ ConnectCancelledReport(c)
+  \/ ConnectCancelledInDisconnect(c) \/ (\E how \in {"ok", "blocked", "fail"} : InitWrite(c, how))
   \/ DrainResume(c) \/ DrainTimeout(c) \/ ConnectCancelledDrain(c) \/ InitSent(c)
-  \/ InAccept(c) \/ (\E how \in {"peerinit", "pierce"} : InitOk(c, how)) \/ (\E path \in InitPaths : InitFails(c, path)) \/ AcceptFinish(c)
-  \/ Deliver(c) \/ Send(c) \/ SendBlocked(c) \/ SendResume(c) \/ WriteTimeout(c) \/ WriteError(c)
-  \/ (\E path \in ReadPaths : ReadEnds(c, path)) \/ Disconnect(c) \/ DisconnectEnd(c)
+  \/ InAccept(c) \/ (\E how \in {"peerinit", "pierce"} : InitOk(c, how)) \/ (\E path \in InitPaths : InitFails(c, path))
+  \/ AcceptFinish(c)
+  \/ Deliver(c) \/ Send(c) \/ SendBlocked(c) \/ SendResume(c) \/ SendWakeError(c) \/ WriteTimeout(c) \/ WriteError(c)
+  \/ (\E path \in ReadPaths : ReadEnds(c, path)) \/ Disconnect(c) \/ DiscGo(c) \/ DisconnectEnd(c) \/ DiscDone(c)
 
 Next == \E c \in Conns : Step(c)
 
@@ -307,7 +392,7 @@ TypeOK ==
     /\ \A i \in 1..Len(r.rep) : r.rep[i] \in StateNames
     /\ r.att \in {"none", "running", "cancelled", "finished", "unknown"}
     /\ r.wr \in {"none", "open", "closing", "closed", "unknown"}
-    /\ r.dpc \in {"-", "now", "wait"}
+    /\ r.dpc \in {"-", "repCLOSING", "now", "wait", "repCLOSED"}
     /\ r.kind = "server" => ~r.inReg
 
 \* Reported states only move forward; only the server connection may go from CLOSED back to CONNECTING.
@@ -331,7 +416,8 @@ NothingAfterClosed ==
        r.rep[i] = "CLOSED" => (r.kind = "server" /\ r.rep[i + 1] = "CONNECTING")
 
 NoDeliveryAfterClosed == \A c \in DOMAIN conn : ~conn[c].dlvAC
-NoSendAfterClosed == \A c \in DOMAIN conn : ~conn[c].sndAC
+\* no byte leaves after CLOSED, and no send that had handed its bytes to the transport reports success after CLOSED
+NoSendAfterClosed == \A c \in DOMAIN conn : ~conn[c].sndAC /\ ~conn[c].sokAC
 
 \* "open or being opened by a still-running attempt", in terms of what was reported
 ShouldBeIn(r) ==
@@ -345,10 +431,11 @@ RegistryOK ==
           \/ r.inReg <=> ShouldBeIn(r)
        /\ r.wr = "open" => r.inReg            \* whatever was reported: no open transport outside the registry
 
-\* a connection that reported anything and whose life has ended (no running attempt, no transport) reported CLOSED last
+\* a connection that reported anything and whose life has ended (no running attempt, no transport, no task suspended
+\* in one of its reports) reported CLOSED last
 EndedOK ==
   \A c \in DOMAIN conn : LET r == conn[c] IN
-    (r.rep # <<>> /\ r.att \in {"none", "cancelled", "finished"} /\ r.wr \in {"none", "closed"}) =>
+    (r.rep # <<>> /\ r.att \in {"none", "cancelled", "finished"} /\ r.wr \in {"none", "closed"} /\ ~InReport(r)) =>
        LastRep(r) = "CLOSED"
 
 Quiescent == \A c \in DOMAIN conn : ~Busy(conn[c])
